@@ -240,7 +240,7 @@ fn gen_case(rng: &mut Rng, root: &str) -> ImportCase {
     };
     job.compressed = rng.chance(0.3);
     job.unicode = rng.chance(0.6);
-    let dir = *rng.pick(&["", "a", "a/b"]);
+    let dir = *rng.pick(&["", "", "a", "a/b", "lp1"]);
     let directive = *rng.pick(&["import", "import", "use", "use", "forward", "load-css"]);
     // URL
     let name = *rng.pick(&["foo", "foo", "bar", "foo.bar", "x.y.z", "lib"]);
@@ -250,6 +250,20 @@ fn gen_case(rng: &mut Rng, root: &str) -> ImportCase {
         suffix = ""; // `@import "x.css"` is a plain-CSS import, tested separately
     }
     let url = format!("{}{}{}", prefix, name, suffix);
+    // load paths
+    let lp_pool = ["lp1", "lp2", "lp1/inner", "a"];
+    let nlp = rng.below(4) as usize;
+    #[allow(unused_mut)]
+    let mut lps: Vec<String> = vec![];
+    for _ in 0..nlp {
+        let d = *rng.pick(&lp_pool);
+        let s = if rng.chance(0.5) { d.to_string() } else { join(root, d) };
+        if !lps.contains(&s) {
+            lps.push(s);
+        }
+    }
+    job.load_paths = lps.clone();
+    job.extra_dirs = lp_pool.iter().map(|d| join(root, d)).collect();
     // importer: the entry itself, or a file the entry imports
     let via_mid = rng.chance(0.3);
     let importer_sass = rng.chance(0.25);
@@ -270,28 +284,29 @@ fn gen_case(rng: &mut Rng, root: &str) -> ImportCase {
     files.push((importer.clone(), body.into_bytes()));
     let entry_path;
     if via_mid {
+        // the entry reaches the importing file relatively (from the root) or through a
+        // load path (the importer then sits in a load-path directory): either way the
+        // search for the URL under test must start in the importer's own directory
         let entry = join(root, "main.scss");
-        let mid_url = importer_rel.trim_end_matches(".scss").trim_end_matches(".sass").to_string();
-        files.push((entry.clone(), format!("@import \"{}\";\n", mid_url).into_bytes()));
-        extra_urls.push((entry.clone(), mid_url, true));
+        let mut mid_url = importer_rel.trim_end_matches(".scss").trim_end_matches(".sass").to_string();
+        if dir == "lp1" && rng.chance(0.7) {
+            // found through the load path `lp1`, by its bare name
+            if !lps.iter().any(|l| normalize(root, l) == join(root, "lp1")) {
+                let pos = rng.usize_below(lps.len() + 1);
+                lps.insert(pos, "lp1".to_string());
+                job.load_paths = lps.clone();
+            }
+            mid_url = "imp".to_string();
+        }
+        let how = rng.below(3);
+        let text = if how == 0 { format!("@use \"{}\" as mid;\n", mid_url) } else { format!("@import \"{}\";\n", mid_url) };
+        files.push((entry.clone(), text.into_bytes()));
+        extra_urls.push((entry.clone(), mid_url, how != 0));
         entry_path = entry;
     } else {
         entry_path = importer.clone();
     }
     job.entry = Entry::Path(if rng.chance(0.5) { entry_path.clone() } else { entry_path[root.len() + 1..].to_string() });
-    // load paths
-    let lp_pool = ["lp1", "lp2", "lp1/inner", "a"];
-    let nlp = rng.below(4) as usize;
-    let mut lps: Vec<String> = vec![];
-    for _ in 0..nlp {
-        let d = *rng.pick(&lp_pool);
-        let s = if rng.chance(0.5) { d.to_string() } else { join(root, d) };
-        if !lps.contains(&s) {
-            lps.push(s);
-        }
-    }
-    job.load_paths = lps.clone();
-    job.extra_dirs = lp_pool.iter().map(|d| join(root, d)).collect();
     // candidate files: per location, per level, at most one member (ambiguous layouts are excluded)
     let mut locs = vec![dirname(&importer)];
     for lp in &lps {
